@@ -2,7 +2,8 @@
    umap/sparse.py applied to two canonical CSR rows equals the dense metric of the current umap/distances.py applied to the densified
    vectors, for all rows of every length (over R).  Chain: L_sparse (translated sparse source = model merge/metric, iteration budget not
    exhausted) ; P_C13 (model sparse metric = model dense metric on densified vectors) ; C13_dense_is_C12 ; L_distances (model dense
-   metric = translated dense source). *)
+   metric = translated dense source).  Linked this way: euclidean, manhattan, chebyshev, hamming, jaccard, cosine, correlation (the
+   current, repaired text of sparse_correlation). *)
 From Coq Require Import List ZArith Bool Arith Lia Reals Lra.
 From UV Require Import Num PyPrim PyPrimLemmas M_metrics T_link M_sparse T_sparse T_sparse_metrics T_sparse_corr T_sparse_link P_C13.
 From UVS Require Import Src_sparse L_sparse Src_distances L_distances.
@@ -57,4 +58,43 @@ Proof.
   intros HU' HI'. rewrite (src_sparse_jaccard_eq RNum U I a b HU' HI'). rewrite (C13_jaccard a b n Ca Cb Ba Bb).
   destruct (C13_dense_is_C12 da db Lab) as (_ & _ & _ & _ & _ & _ & _ & E & _). fold da db. rewrite E. rewrite (src_jaccard_eq da db Lab). reflexivity.
 Qed.
+(* cosine: the product row is written into the buffer arr_intersect returns (only its length matters) *)
+Corollary C13_src_cosine (I : list Z -> list Z -> list Z) :
+  (length (arr_intersect (inds RNum a) (inds RNum b)) <= length (I (zi RNum a) (zi RNum b)))%nat ->
+  src_sparse_cosine RNum I (zi RNum a) (vals RNum a) (zi RNum b) (vals RNum b) = (src_cosine RNum da db, true).
+Proof.
+  intros HI. rewrite (src_sparse_cosine_eq RNum I a b HI). rewrite (C13_cosine a b n Ca Cb Ba Bb).
+  destruct (C13_dense_is_C12 da db Lab) as (_ & _ & _ & _ & _ & _ & _ & _ & _ & _ & _ & _ & _ & _ & _ & E & _). fold da db. rewrite E.
+  rewrite (src_cosine_eq RNum da db Lab). reflexivity.
+Qed.
+
+(* correlation (the current text of sparse_correlation, i.e. after the two repairs): arr_union is read through its length, arr_intersect
+   as the sparse_mul buffer (length) and as the set of common indices (membership) *)
+Corollary C13_src_correlation (I : list Z -> list Z -> list Z) : (0 < n)%nat ->
+  zlen (U (zi RNum a) (zi RNum b)) = n_union RNum a b ->
+  (length (arr_intersect (inds RNum a) (inds RNum b)) <= length (I (zi RNum a) (zi RNum b)))%nat ->
+  (forall k : nat, zmem (Z.of_nat k) (I (zi RNum a) (zi RNum b)) = memb k (arr_intersect (inds RNum a) (inds RNum b))) ->
+  src_sparse_correlation RNum U I (zi RNum a) (vals RNum a) (zi RNum b) (vals RNum b) (Z.of_nat n) = (src_correlation RNum da db, true).
+Proof.
+  intros Hn HU' HI HC. rewrite (src_sparse_correlation_eq RNum U I a b n HU' HI HC). rewrite (C13_correlation a b n Hn Ca Cb Ba Bb).
+  destruct (C13_dense_is_C12 da db Lab) as (_ & _ & _ & _ & _ & _ & _ & _ & _ & _ & _ & _ & _ & _ & _ & _ & E & _). fold da db. rewrite E.
+  rewrite (src_correlation_eq RNum da db Lab). reflexivity.
+Qed.
 End K.
+
+(* the hypotheses on the two helpers are satisfiable for every pair of rows: the model's own merges *)
+Theorem C13_src_correlation_model (a b : rvec) (n : nat) :
+  canonical a -> canonical b -> below n a -> below n b -> (0 < n)%nat ->
+  src_sparse_correlation RNum (fun x y => map Z.of_nat (arr_union (map Z.to_nat x) (map Z.to_nat y)))
+                              (fun x y => map Z.of_nat (arr_intersect (map Z.to_nat x) (map Z.to_nat y)))
+                              (zi RNum a) (vals RNum a) (zi RNum b) (vals RNum b) (Z.of_nat n)
+  = (src_correlation RNum (densify RNum n a) (densify RNum n b), true).
+Proof.
+  intros Ca Cb Ba Bb Hn.
+  assert (E : forall l : list nat, map Z.to_nat (map Z.of_nat l) = l).
+  { induction l as [|k l IH]; cbn; [reflexivity|]. rewrite Nat2Z.id, IH. reflexivity. }
+  apply C13_src_correlation; try assumption; unfold zi; rewrite !E.
+  - unfold zlen, n_union. rewrite map_length. reflexivity.
+  - rewrite map_length. apply le_n.
+  - intros k. apply zmem_of_nat.
+Qed.
